@@ -131,6 +131,16 @@ func (h *handshake) readMessage(conn net.Conn, timeout time.Duration, chunk []by
 	}
 }
 
+// checkIntroduce validates what the peer declared about itself before any of it is used
+func checkIntroduce(m MessageIntroduce) error {
+	for id, e := range m.ErrCache {
+		if e == nil {
+			return fmt.Errorf("malformed handshake Introduce message (nil error in ErrCache, id %d)", id)
+		}
+	}
+	return nil
+}
+
 func (h *handshake) makeEncodeAtomCache(local map[uint16]gen.Atom) *sync.Map {
 	if len(local) == 0 {
 		return nil
